@@ -22,6 +22,17 @@ from concurrent.futures import ThreadPoolExecutor
 
 ROOT = os.path.dirname(os.path.dirname(os.path.abspath(__file__)))
 REPO = "/repo"
+BASE = None  # private snapshot of /repo's working tree taken when the run starts (edits to /repo do not disturb a sweep)
+
+
+def base():
+    global BASE
+    if BASE is None:
+        BASE = tempfile.mkdtemp(prefix="ms-base-", dir="/tmp")
+        subprocess.check_call(["rsync", "-a", "--exclude", ".git", REPO + "/", BASE + "/"])
+        import atexit
+        atexit.register(lambda: shutil.rmtree(BASE, ignore_errors=True))
+    return BASE
 ENV = dict(os.environ, GOFLAGS="-mod=mod", GOPROXY="off", GOSUMDB="off", GOTOOLCHAIN="local")
 SKIP = re.compile(r"(_test\.go$|_string\.go$|^internal/cmd/|^test/|/mocks/|^notations/jschema/internal/mocks)")
 
@@ -94,19 +105,23 @@ def mutgen_bin():
 
 def all_mutants(files_rx):
     files = subprocess.check_output(["git", "ls-files", "*.go"], cwd=REPO, text=True).split()
-    files = [f for f in files if not SKIP.search(f) and (not files_rx or re.search(files_rx, f))]
-    out = subprocess.check_output([mutgen_bin()] + files, cwd=REPO, text=True)
+    files = [f for f in files if not SKIP.search(f) and (not files_rx or re.search(files_rx, f)) and os.path.exists(os.path.join(base(), f))]
+    out = subprocess.check_output([mutgen_bin()] + files, cwd=base(), text=True)
     res = []
+    fh = {}
     for line in out.splitlines():
         m = json.loads(line)
-        m["id"] = hashlib.sha1(("%s:%d:%d:%s" % (m["file"], m["off"], m["len"], m["new"])).encode()).hexdigest()[:12]
+        if m["file"] not in fh:
+            fh[m["file"]] = hashlib.sha1(open(os.path.join(base(), m["file"]), "rb").read()).hexdigest()[:10]
+        # the id names the mutation of this very file content: results survive edits to other files only
+        m["id"] = hashlib.sha1(("%s:%s:%d:%d:%s" % (m["file"], fh[m["file"]], m["off"], m["len"], m["new"])).encode()).hexdigest()[:12]
         res.append(m)
     return res
 
 
 def scratch_copy(m):
     d = tempfile.mkdtemp(prefix="ms-%s-" % m["id"], dir="/tmp")
-    subprocess.check_call(["rsync", "-a", "--exclude", ".git", REPO + "/", d + "/"])
+    subprocess.check_call(["rsync", "-a", base() + "/", d + "/"])
     p = os.path.join(d, m["file"])
     s = open(p, "rb").read()
     s = s[:m["off"]] + m["new"].encode() + s[m["off"] + m["len"]:]
@@ -271,7 +286,8 @@ def stage2(args):
     s1 = load(os.path.join(out, "stage1.jsonl"))
     path = os.path.join(out, "stage2.jsonl")
     done = load(path)
-    green = [m for m in s1.values() if m["status"] == "suite-green" and (not files_rx or re.search(files_rx, m["file"]))]
+    listed = set(m["id"] for m in all_mutants(files_rx))
+    green = [m for m in s1.values() if m["status"] == "suite-green" and m["id"] in listed]
     green.sort(key=lambda m: hashlib.sha1(m["id"].encode()).hexdigest())
     per = collections.Counter()
     jobs = []
